@@ -101,6 +101,14 @@ func (ex *Exec) strFromSlice(x string, sl *types.Slice) string {
 		return "(runes_str (select " + E + " (sarr " + x + ")) (soff " + x + ") (slen_ " + x + "))"
 	}
 	vc.strPrelude()
+	if b, ok := sl.Elem().Underlying().(*types.Basic); ok && b.Kind() == types.Uint8 {
+		// string([]byte): the same bytes, exactly (a fresh well-formed string value)
+		k, srt := ex.elemKey(sl.Elem())
+		E := ex.get(ex.curState, k, "(Array Int (Array Int "+srt+"))")
+		n := vc.fresh("bytestr", strSort)
+		vc.assume("(and (str_wf " + n + ") (= (slen " + n + ") (slen_ " + x + ")) (forall ((i Int)) (! (=> (and (<= 0 i) (< i (slen_ " + x + "))) (= (select (sbytes " + n + ") i) (select (select " + E + " (sarr " + x + ")) (ix (soff " + x + ") i)))) :pattern ((select (sbytes " + n + ") i)))))")
+		return n
+	}
 	vc.errorf("conversion from %s to string is not modelled", sl)
 	return vc.fresh("strconv", strSort)
 }
@@ -156,6 +164,19 @@ func (ev *Eval) strBuiltin(e ECall) (TV, bool) {
 		x := ev.eval(e.Args[0])
 		ev.vc().strPrelude()
 		return TV{T: sSel(ev.ex.get(ev.state(), "SB", "(Array Int Str)"), x.T), Ty: strT}, true
+	case "strwf":
+		// well-formed string value: non-negative length, zero bytes outside it (canonical form; every Go string
+		// value is; ghost strings must say so before equality can be concluded from equal bytes)
+		ev.vc().strPrelude()
+		return TV{T: "(str_wf " + arg(0).T + ")", Ty: vtBool}, true
+	case "streq":
+		// a == b, stated in a way that lets the solver conclude it from equal lengths and equal bytes
+		// (extensionality of the byte arrays with an explicit difference witness)
+		ev.vc().strPrelude()
+		ev.vc().declareOnce("str:ext", `(declare-fun str_eqx (Str Str) Bool)
+(declare-fun str_diff (Str Str) Int)
+(assert (forall ((a Str) (b Str)) (! (and (= (str_eqx a b) (= a b)) (=> (and (= (slen a) (slen b)) (= (select (sbytes a) (str_diff a b)) (select (sbytes b) (str_diff a b)))) (= a b))) :pattern ((str_eqx a b)))))`)
+		return TV{T: "(str_eqx " + arg(0).T + " " + arg(1).T + ")", Ty: vtBool}, true
 	case "runestr":
 		ev.vc().runeConvFns()
 		return TV{T: "(runes_str " + arg(0).T + " " + arg(1).T + " " + arg(2).T + ")", Ty: strT}, true
